@@ -13,6 +13,7 @@ var (
 	ErrInvalidSequenceNumber = errors.New("invalid chunk sequence")
 	ErrStreamBroken          = errors.New("stream broken")
 	ErrDeadlineExceeded      = errors.New("deadline exceeded")
+	ErrInvalidFragmentSize   = errors.New("invalid fragment size")
 )
 
 // Packet represents a part of data exchanged between the client and the server
@@ -336,6 +337,11 @@ func (q *OutQueue) addChunk(data []byte) error {
 // Write will create packets out of the given byte stream. Make sure that the writes are as large as possible,
 // otherwise Packet will get quite small.
 func (q *OutQueue) Write(b []byte, mtu uint32) (n int, err error) {
+	if mtu == 0 {
+		// A zero chunk size would never consume the input
+		return 0, ErrInvalidFragmentSize
+	}
+
 	err = q.waitEmptyQueue()
 	if err != nil {
 		return
